@@ -38,7 +38,9 @@ func NewLeafReduce(leafExecuteCtx *context.LeafExecuteContext, executeCtx *flow.
 
 // Execute executes aggregate down sampling result set after all down sampling operators completed.
 func (op *leafReduce) Execute() error {
-	if op.executeCtx.PendingDataLoadTasks.Load() == 0 {
+	// the data load stages of the time segments run concurrently, when their last data load tasks complete
+	// at the same time all of them see "no pending task", only one of them may reduce(aggregator's result read once).
+	if op.executeCtx.PendingDataLoadTasks.CompareAndSwap(0, -1) {
 		// after load, need to reduce the aggregator's result to query flow.
 		op.executeCtx.Reduce(op.leafExecuteCtx.ReduceCtx.Reduce)
 	}
